@@ -355,4 +355,35 @@ theorem LinkS_manager_frame (i j : Nat) (hj : j ≠ i) (tbl : List PyStoreSt) (k
     simp [List.getElem?_set, hne]
 
 
+/-- the operators of a pipeline probed one after the other: each asks for a state, the ids handed out in order -/
+def probeAll {δ : Type} : List δ → List δ → List δ × List Nat
+  | states, [] => (states, [])
+  | states, d :: r =>
+    let a := Gen.StateTopology_create_state states d
+    let b := probeAll a.1 r
+    (b.1, a.2 :: b.2)
+
+theorem probeAll_spec {δ : Type} (states ds : List δ) :
+    probeAll states ds = (states ++ ds, (List.range' states.length ds.length)) := by
+  induction ds generalizing states with
+  | nil => simp [probeAll]
+  | cons d r ih =>
+    simp only [probeAll, Gen.StateTopology_create_state, ih]
+    simp [List.range'_succ]
+
+/-- **`StateTopology.create_state`** (generated from rxsci/state/state_topology.py): the operators of a pipeline that ask for
+states during the topology probe get the ids `0, 1, 2, …` in that order — pairwise different — and the definition stored under the
+id of the k-th request is the k-th requested one (its data type and default value are what `Store.__init__` builds the k-th
+`MemoryStore` from) -/
+theorem LinkS_topology {δ : Type} (ds : List δ) :
+    (probeAll [] ds).2 = List.range ds.length ∧ (probeAll [] ds).2.Nodup
+      ∧ ∀ k, k < ds.length → (probeAll [] ds).1[(probeAll [] ds).2[k]?.getD 0]? = ds[k]? := by
+  rw [probeAll_spec]
+  simp only [List.nil_append, List.length_nil]
+  refine ⟨by simp [List.range_eq_range'], by simpa using List.nodup_range' , ?_⟩
+  intro k hk
+  simp [List.getElem?_range', hk]
+
+example : (probeAll [] ["scan-0", "mapper-0", "scan-1"]).2 = [0, 1, 2] := by decide
+
 end Rx
